@@ -534,3 +534,28 @@ package beacon
 //@   ensures [C02:the-timing-layer-reports-success-only-when-the-write-below-succeeded] err == nil ==> stored(d.Store, b.Round) && sigOf(d.Store, b.Round) == b.Signature && prevOf(d.Store, b.Round) == b.PreviousSig
 //@   ensures [C02:a-write-that-fails-below-the-timing-layer-changes-nothing] err != nil ==> (forall r int :: stored(d.Store, r) == old(stored(d.Store, r)) && sigOf(d.Store, r) == old(sigOf(d.Store, r)) && prevOf(d.Store, r) == old(prevOf(d.Store, r)))
 //@   ensures [C02:the-timing-layer-never-replaces-or-invents-other-rounds] forall r int :: r != b.Round && stored(d.Store, r) ==> old(stored(d.Store, r)) && sigOf(d.Store, r) == old(sigOf(d.Store, r)) && prevOf(d.Store, r) == old(prevOf(d.Store, r))
+
+// ---- C02: the store the aggregator writes to is the checked stack ---------------
+
+//@ func newDiscrepancyStore(s, l, group, cl) (res)
+//@   props C02
+//@   modifies nothing
+//@   ensures [C02:timing-layer-wraps-the-given-store] typeis(res, "*discrepancyStore") && as(res, "*discrepancyStore").Store == s
+
+//@ func NewCallbackStore(l, s) (res)
+//@   props C02
+//@   modifies nothing
+//@   ensures [C02:callback-layer-wraps-the-given-store] typeis(res, "*callbackStore") && as(res, "*callbackStore").Store == s && as(res, "*callbackStore").newJob != nil && as(res, "*callbackStore").callbacks != nil && as(res, "*callbackStore").l == l
+
+//@ func NewSyncManager(ctx, c) (m, err)
+//@   props C02 C10
+//@   modifies nothing
+//@   ensures [C10:sync-manager-writes-to-the-store-it-is-given] err == nil ==> m != nil && m.store == c.Store && m.insecureStore == c.BoltdbStore && m.info == c.Info && m.client == c.Client && m.clock == c.Clock && m.nodeAddr == c.NodeAddr
+
+//@ func newChainStore(ctx, l, cf, cl, v, store, t) (cs, err)
+//@   props C02
+//@   requires [wf] cf != nil && cf.Group != nil && cf.Group.Scheme != nil && v != nil
+//@   call NewCallbackStore#0: assert [C02:callbacks-sit-on-the-append-layer-over-the-scheme-layer] typeis(arg1, "*appendStore") && typeis(as(arg1, "*appendStore").Store, "*schemeStore")
+//@   call NewCallbackStore#0: assert [C02:scheme-layer-over-timing-layer-over-the-database] typeis(as(as(arg1, "*appendStore").Store, "*schemeStore").Store, "*discrepancyStore") && as(as(as(arg1, "*appendStore").Store, "*schemeStore").Store, "*discrepancyStore").Store == store
+//@   call NewSyncManager#0: assert [C02:sync-writes-through-the-same-stack] typeis(arg1.Store, "*callbackStore") && typeis(as(arg1.Store, "*callbackStore").Store, "*appendStore") && arg1.BoltdbStore == store
+//@   ensures [C02:aggregator-store-is-the-callback-layer] err == nil ==> cs != nil && typeis(cs.CallbackStore, "*callbackStore") && cs.syncm != nil && cs.syncm.store == cs.CallbackStore
